@@ -127,7 +127,9 @@ def new_heap(size):
     from . import objects as O
     install_heap()
     heap = H.Heap(size)
-    if not isinstance(heap._lock, O.SimLock):      # belt and braces
+    # (whatever kind of lock the heap asks the threading module for is what it gets, on the simulated kernel;
+    # only a lock that did not come through the seam is replaced)
+    if not isinstance(heap._lock, (O.SimLock, O.SimRLock)):
         heap._lock = O.SimLock()
     return heap
 
